@@ -65,7 +65,7 @@ FAMILIES = {
     "mol": ["mol", "mmol", "umol"], "Hz": ["Hz", "kHz", "mHz", "MHz"], "m": ["m", "mm", "km", "cm"],
     "m^2": ["m^2", "mm^2", "cm^2"], "s^-1": ["s^-1", "ms^-1"], "Ohm": ["Ohm", "kOhm", "MOhm"],
     "Sv": ["Sv", "mSv"], "K": ["K", "mK"], "g": ["g", "kg", "mg"], "rad": ["rad", "mrad"], "%": ["%"],
-    "dB": ["dB"], "l": ["l", "ml"], "Wb": ["Wb", "mWb"], "lm": ["lm", "klm"], "Pa": ["Pa", "hPa", "daPa"],
+    "dB": ["dB"], "l": ["l", "ml"], "S": ["S", "mS", "uS"], "Wb": ["Wb", "mWb"], "lm": ["lm", "klm"], "Pa": ["Pa", "hPa", "daPa"],
 }
 FAMILY_OF = {}
 for _fam, _lst in FAMILIES.items():
@@ -93,7 +93,7 @@ types = st.sampled_from(TYPES)
 def axis_unit(draw):
     if draw(st.integers(0, 9)) < 3:
         return None
-    fam = draw(st.sampled_from(sorted(FAMILIES)))
+    fam = draw(st.sampled_from(sorted(FAMILIES) + ["s", "s", "S"]))
     return draw(st.sampled_from(FAMILIES[fam]))
 
 
